@@ -8,7 +8,7 @@ COMMON_TRUSTED = [
 ]
 
 PROPS = {}
-HOOK_COMMITS = ["f0964c3", "f0ee85c", "a38392f", "da161e5", "5e35e30", "48a35e4", "bcc879f", "e7e32d2"]
+HOOK_COMMITS = ["f0964c3", "f0ee85c", "a38392f", "da161e5", "5e35e30", "48a35e4", "bcc879f", "e7e32d2", "7bc6616"]
 NOT_BUILT_REASON = "no check registered yet: the Lean model/theorems and the correspondence harness for this property have not been built in this session (work in progress, see DESIGN.md §12); the technique applies"
 
 PROPS["C05"] = {
@@ -288,22 +288,22 @@ PROPS["C18"] = {
 }
 
 PROPS["C16"] = {
-    "modules": ["Gmsm.Props.C16"],
+    "modules": ["Gmsm.Props.C16", "Gmsm.Props.C16Codec"],
     "theorems": [
         "Props.C16.gate_iff", "Props.C16.altered_ticket_never_resumes", "Props.C16.retired_key_never_resumes",
         "Props.C16.disabled_never_resumes", "Props.C16.unacceptable_certs_never_resume", "Props.C16.conn_resumed_iff", "Props.C16.conn_resumed",
         "Props.C16.resumed_is_original", "Props.C16.valid_ticket_resumes", "Props.C16.inv_conn", "Props.C16.inv_step",
         "Props.C16.inv_reach", "Props.C16.history_resumption_sound", "Props.C16.gm_default_never_resumes",
-        "Props.C16.put_length", "Props.C16.gm_not_in_tls_defaults",
+        "Props.C16.put_length", "Props.C16.gm_not_in_tls_defaults", "Props.C16Codec.unmarshal_marshal", "Props.C16Codec.marshal_unmarshal", "Props.C16Codec.unmarshal_wf", "Props.C16Codec.unmarshal_iff", "Props.C16Codec.unmarshal_injective", "Props.C16Codec.marshal_injective", "Props.C16Codec.unmarshal_total", "Props.C16Codec.no_trailing_bytes", "Props.C16Codec.marshal_length", "Props.C16Codec.marshal_truncates",
     ],
     "gen_items": ["gmtls."],
     "gen_obligations": ["Gen.TLS suite tables and default lists (shared with C06) regenerated from gmtls; gm_not_in_tls_defaults re-proved on every run"],
     "level": "proof",
-    "claim": "A Lean state machine of resumption (server gate checkForResumption over decryptTicket, ticket issue and refresh under rotated keys, the client's offer and its LRU cache) with theorems for every history of any length: the gate is characterised outright (gate_iff: tickets enabled, bytes unaltered, sealed under a still-configured key, same version, suite offered by the client and listed and servable by the server, client-certificate policy compatible; the resumed state is the sealed one), so an altered ticket, a retired key, disabled tickets never resume; an invariant proved by induction over all histories of connections / key rotations / suite-list / ClientAuth / ticket-switch changes and every cache capacity (inv_reach) gives history_resumption_sound: whatever both ends report as resumed carries the master secret, version, suite and client certificates of a full handshake earlier in that history; valid_ticket_resumes is the completeness direction (an explicitly listed suite is resumed); gm_default_never_resumes explains the silent fallback under the default GMSSL configuration. The model is executed against real gmtls clients and servers on every run: generated histories of up to 7 connections to two servers sharing one client cache of capacity 1..3, with rotations, policy and suite changes, ticket tampering (bit flip at any byte, truncation, extension) in GMSSL and TLS 1.2 mode; per connection the real outcome (full / resumed-from-which-handshake / error) must equal the model's, and intrinsic oracles check that both ends agree on DidResume, version, suite, exported keying material, that data flows both ways, that a resumed connection reports the original session's client and server certificates and a refreshed ticket keeps the original secret.",
-    "note": "Partial: tickets are abstract in the model (key name, sealed state, intact flag); AES-CTR/HMAC-SHA256 of ticket.go and the byte-level sessionState codec are exercised by the tamper sweep, not proved. The full-handshake part of the model (suite choice, client-certificate policy) is the small subset needed to predict fallbacks; C06 covers negotiation. Versions other than GMSSL 1.1 and TLS 1.2 and renegotiation are not modelled.",
+    "claim": "A Lean state machine of resumption (server gate checkForResumption over decryptTicket, ticket issue and refresh under rotated keys, the client's offer and its LRU cache) with theorems for every history of any length: the gate is characterised outright (gate_iff: tickets enabled, bytes unaltered, sealed under a still-configured key, same version, suite offered by the client and listed and servable by the server, client-certificate policy compatible; the resumed state is the sealed one), so an altered ticket, a retired key, disabled tickets never resume; an invariant proved by induction over all histories of connections / key rotations / suite-list / ClientAuth / ticket-switch changes and every cache capacity (inv_reach) gives history_resumption_sound: whatever both ends report as resumed carries the master secret, version, suite and client certificates of a full handshake earlier in that history; valid_ticket_resumes is the completeness direction (an explicitly listed suite is resumed); gm_default_never_resumes explains the silent fallback under the default GMSSL configuration. The model is executed against real gmtls clients and servers on every run: generated histories of up to 7 connections to two servers sharing one client cache of capacity 1..3, with rotations, policy and suite changes, ticket tampering (bit flip at any byte, truncation, extension) in GMSSL and TLS 1.2 mode; per connection the real outcome (full / resumed-from-which-handshake / error) must equal the model's, and intrinsic oracles check that both ends agree on DidResume, version, suite, exported keying material, that data flows both ways, that a resumed connection reports the original session's client and server certificates and a refreshed ticket keeps the original secret. Added (C16Codec): a byte-level model of sessionState.marshal / unmarshal (what a ticket seals) with unmarshal_marshal (every state within the length-field ranges round-trips), unmarshal_iff (the parser accepts exactly the canonical encodings of well-formed states: no trailing bytes, no second encoding), injectivity both ways and unmarshal_total (never claims bytes beyond the input); tied by the sstate / sstatem ops (parsed fields and re-marshalled bytes compared on valid states, every truncation, perturbed length fields, trailing bytes, random strings). The history model also carries the server's MaxVersion (TLS mode): a ticket of one protocol version is never resumed on a connection of another.",
+    "note": "Partial: tickets are abstract in the model (key name, sealed state, intact flag); AES-CTR/HMAC-SHA256 of ticket.go are exercised by the tamper sweep, not proved. The full-handshake part of the model (suite choice, client-certificate policy) is the small subset needed to predict fallbacks; C06 covers negotiation. Versions other than GMSSL 1.1 and TLS 1.2 and renegotiation are not modelled.",
     "trusted_base": ["Model.Resume tied to gmtls by the resume op (exact outcome sequence) in harness/c16.go; hook gmtls.VerifSessionInfo/VerifSessionWithTicket (read / re-ticket a cached client session)", "tlsDefaults in the model lists only the RSA-usable default suites the harness exercises"],
     "assumptions": ["ticket MAC: an altered ticket never verifies (modelled by the intact flag; exercised by the tamper sweep)"],
-    "not_proved": ["sessionState marshal/unmarshal round trip as a theorem", "LRU order equals container/list behaviour (tied by the capacity 1..3 histories only)"],
+    "not_proved": ["LRU order equals container/list behaviour (tied by the capacity 1..3 histories only)"],
 }
 
 PROPS["C06"] = {
